@@ -258,6 +258,24 @@ pub fn programs() -> Vec<(&'static str, String)> {
             extra.push(("slot grid: constant component in a tuple scrutinee", format!("pub fn main(x: u8) -> u8 {{ match {scrut} {{ {arms} }} }}\n")));
         }
     }
+    // ---- type cycles that are reached from a definition outside of them (structs are examined
+    //      before enums, so the outside definition comes first when the cycle consists of enums)
+    for defs in [
+        "struct Wrapper { list: List }\nenum List { Nil, Cons(Node) }\nenum Node { Leaf(u8), Inner(List) }\n",
+        "struct A { w: Wrapper }\nstruct Wrapper { list: List, n: u8 }\nenum List { Nil, Cons(u8, Node) }\nenum Node { Leaf, Inner(List, List) }\n",
+        "struct Wrapper { t: (u8, [Tree; 2]) }\nenum Tree { Leaf(u8), Fork(Pair) }\nenum Pair { P(Tree, Tree) }\n",
+        "struct Outer { e: E1 }\nenum E1 { A(E2) }\nenum E2 { B(E3) }\nenum E3 { C(E1), D }\n",
+        "enum Top { T(Wrapper) }\nstruct Wrapper { list: List }\nenum List { Nil, Cons(Node) }\nenum Node { Leaf(u8), Inner(List) }\n",
+    ] {
+        for main in [
+            "pub fn main(x: u8) -> u8 { x }",
+            "pub fn main(x: u8) -> u8 { let l = List::Nil; x }",
+            "pub fn main(w: Wrapper, x: u8) -> u8 { x }",
+            "pub fn main(x: u8) -> Wrapper { Wrapper { list: List::Nil } }",
+        ] {
+            extra.push(("slot grid: type cycle reached from outside", format!("{defs}{main}\n")));
+        }
+    }
     out.extend(extra);
     out
 }
